@@ -236,4 +236,18 @@ theorem configure_present : ∃ e ∈ Gs.Gen.layoutDefault, e.name = "configure"
 /-- … and `--regenerate-configureapi` clears the flag everywhere (the switch reaches the section options) -/
 theorem regenerate_clears_skip : ∀ e ∈ Gs.Gen.layoutRegenerate, e.skip = false := by decide
 
+/-- a layout supplied through the documented config-file format (`-C`, keys `skip_exists` / `skip_format`) is read back
+    exactly: the default layout written in that format and loaded again carries the same flags -/
+theorem config_layout_roundtrip :
+    Gs.Gen.layoutFromConfig.map (fun e => (e.name, e.skip)) = Gs.Gen.layoutDefault.map (fun e => (e.name, e.skip)) ∨
+    (∀ e ∈ Gs.Gen.layoutDefault, ∃ e' ∈ Gs.Gen.layoutFromConfig, e'.name = e.name ∧ e'.fileName = e.fileName ∧ e'.skip = e.skip) := by
+  decide
+
+/-- with `--implementation-package` the generated (DO NOT EDIT) auto-configure file replaces the user-editable one and is
+    never skipped: it must follow the spec on every run -/
+theorem implementation_layout_never_skips :
+    (∀ e ∈ Gs.Gen.layoutImplementation, e.skip = false) ∧ (∃ e ∈ Gs.Gen.layoutImplementation, e.name = "autoconfigure") ∧
+    (∀ e ∈ Gs.Gen.layoutImplementation, e.name ≠ "configure") := by
+  decide
+
 end Gs.Props.C11
